@@ -51,6 +51,12 @@ Theorem C02_concat (n : nat) p (c : cfg (concat_op n)) :
 Proof. exact (fun H Hc => pk_c02 (concat_protocol H Hc)). Qed.
 Print Assumptions C02_concat.
 
+(** flatten: every emitted inner is a fresh source (guard [g_flatten]) *)
+Theorem C02_flatten p (c : cfg flatten_op) :
+  std p -> reach p g_flatten c -> forall s, term_final s (trace c).
+Proof. exact (fun H Hc => pk_c02 (flatten_protocol H Hc)). Qed.
+Print Assumptions C02_flatten.
+
 (** share, for every number of sinks, as C12 quantifies it (no nested fan-out: guard [g_share]) *)
 Theorem C02_share p (c : cfg share_op) :
   share_regime p -> reach p g_share c -> forall s, term_final s (trace c).
